@@ -24,7 +24,9 @@ TBind ==
                    << e.cfg, {<< x[1], x[3] >> : x \in {y \in b : \E g \in badg : y[1] \in g}} >>)
             \o Chk(e.faults = 0, "C12", "resolver-faulted", l, << e.cfg >>)
             \o Chk(e.abi_bad = 0, "C19", "abi", l, << "resolver", e.abi_name >>)
-            \o Chk(e.statics_bad = 0, "C18", "static-write", l, << "resolver wrote more than its binding" >>))
+            \o Chk(e.statics_bad = 0, "C18", "static-write", l, << "resolver wrote more than its binding" >>)
+            \* racing first calls bind correctly only if the slot goes from the resolver stub to the final target in one store
+            \o Chk(e.multi = 0, "C18", "binding-published-in-more-than-one-step", l, << e.multi_name >>))
 
 TTwice == /\ IsEv("BindTwice")
           /\ Adv(Chk(Tr[l].changed = 0, "C12", "binding-changed-on-second-resolution", l, << Tr[l].name >>))
